@@ -470,6 +470,120 @@ def check_inline_padding(ctx, prog, tag):
 
 
 
+def strview_is_guarded(k, cc):
+    """`cc` is a call of Value::as_str in function k: a test `kind() == String` on the same value holds on every path to
+    it (directly as a dominating guard, or folded into a boolean first).  Bytes that are valid UTF-8 have a string view
+    as well, so code that folds / compares through the view must first establish that the value *is* a string."""
+    who = {o_.key() for o_ in flow.origins(k, cc.args[0])}
+    for (sb_, taken_) in flow.guards(k, cc.bb):
+        cd_ = flow.cond_of(k, sb_)
+        ee_ = flow.enum_eq(k, cd_)
+        side_ = flow.bool_true_labels(taken_)
+        if ee_ is None or side_ is None or ee_[0] != "String":
+            continue
+        truth_ = (side_ != cd_.neg) != cd_.call.name.endswith("::ne")
+        if truth_ and any(o_.kind == "call" and o_.call.name == KINDFN and (
+                {q_.key() for q_ in flow.origins(k, o_.call.args[0])} & who) for o_ in ee_[1]):
+            return True
+    # the test may be folded into a boolean first (`let foldable = !cs && a.kind() == String && ..`):
+    # the call is unreachable once the true side of every such test on this value is taken away
+    ev_edges, ev_calls = set(), set()
+    for sb_ in sorted(k.reachable):
+        if k.term(sb_)["k"] != "switch":
+            continue
+        cd_ = flow.cond_of(k, sb_)
+        ee_ = flow.enum_eq(k, cd_) if cd_.kind == "call" else None
+        if ee_ is None or ee_[0] != "String":
+            continue
+        if any(o_.kind == "call" and o_.call.name == KINDFN and (
+                {q_.key() for q_ in flow.origins(k, o_.call.args[0])} & who) for o_ in ee_[1]):
+            ev_edges |= cfg.bool_edges(k, sb_, (not cd_.call.name.endswith("::ne")) != cd_.neg)
+    for c2_ in k.calls():
+        if c2_.name.endswith("PartialEq>::eq") and c2_.dest is not None:
+            ee2_ = flow.enum_eq(k, flow.Cond("call", c2_.bb, call=c2_))
+            if ee2_ is not None and ee2_[0] == "String" and any(
+                    o_.kind == "call" and o_.call.name == KINDFN and (
+                        {q_.key() for q_ in flow.origins(k, o_.call.args[0])} & who) for o_ in ee2_[1]):
+                ev_calls.add(c2_.bb)
+    if ev_edges or ev_calls:
+        reach_, _ = cfg.reach_with_bool_phis(k, ev_edges, evidence_calls=ev_calls)
+        return cc.bb not in reach_
+    return False
+
+
+
+SETS = ("BTreeSet", "HashSet", "IndexSet", "BTreeMap", "HashMap", "IndexMap")
+
+
+def check_dedup(ctx, prog, tag, rule="C07.V12."):
+    """V12: a filter that removes duplicates decides by the seen set, for every item.  Found by role: a function of the
+    filter modules with a loop that tests membership in a set (`contains` / `insert`) and pushes onto a vector.
+      (a) every push inside that loop lies on the not-yet-seen side of the membership test;
+      (b) every path from the iterator's `next()` to the next iteration passes the test (no item skips it);
+      (c) the value looked up and the value recorded are the same value;
+      (d) a key derived through the string view (`as_str()` + case folding) is derived from strings only."""
+    n = 0
+    for f in sorted(prog.fns.values(), key=lambda g: g.path):
+        if f.crate not in ("minijinja", "minijinja_contrib") or not (f.loc.f.endswith("filters.rs") or f.loc.f.endswith("filters/mod.rs")):
+            continue
+        tests = [c for c in f.calls() if c.name.endswith(("::contains", "::insert")) and any(s in c.name for s in SETS[:3])]
+        pushes = [c for c in f.calls() if c.name == "alloc::vec::Vec::push"]
+        if not tests or not pushes:
+            continue
+        for h, body in cfg.natural_loops(f):
+            t_in = [c for c in tests if c.bb in body]
+            p_in = [c for c in pushes if c.bb in body]
+            if not t_in or not p_in:
+                continue
+            n += 1
+            short = f.path.split("::")[-1]
+            # (a)
+            for pc in p_in:
+                ok = False
+                for (sb, taken) in flow.guards(f, pc.bb):
+                    cd = flow.cond_of(f, sb)
+                    side = flow.bool_true_labels(taken)
+                    if cd.kind != "call" or side is None or cd.call.bb not in {c.bb for c in t_in}:
+                        continue
+                    truth = (side != cd.neg)
+                    if (cd.call.name.endswith("::contains") and not truth) or (cd.call.name.endswith("::insert") and truth):
+                        ok = True
+                ctx.ob(rule + "kept-item-was-not-seen-before", "%s%s|push" % (tag, f.path), ok,
+                       "%s pushes an item onto its result without having found it absent from the set of values seen so "
+                       "far: the result can hold two `==` items (unique: a duplicate-free subsequence)" % short, f.where(pc.bb))
+            # (b)
+            nexts = [c for c in f.calls() if c.bb in body and c.name.endswith("::next")]
+            back = {t for (t, hh) in cfg.back_edges(f) if hh == h}
+            okb = bool(nexts) and all(cfg.paths_must_pass(f, c.target if c.target is not None else c.bb,
+                                                          [t.bb for t in t_in], back) for c in nexts)
+            ctx.ob(rule + "every-item-is-looked-up", "%s%s|loop" % (tag, f.path), okb,
+                   "a path through the loop of %s reaches the next item without looking the current one up in the set of "
+                   "values seen so far" % short, f.where(h))
+            # (c)
+            looked = [c for c in t_in if c.name.endswith("::contains")]
+            stored = [c for c in t_in if c.name.endswith("::insert")]
+            if looked and stored:
+                thru = lambda k: 0 if k.name.endswith(("::clone", "::borrow", "::deref")) else None
+                lk = set().union(*[{o.key() for o in flow.origins(f, c.args[1], through_calls=thru)} for c in looked])
+                stv = set().union(*[{o.key() for o in flow.origins(f, c.args[1], through_calls=thru)} for c in stored])
+                ctx.ob(rule + "looked-up-value-is-the-recorded-one", "%s%s|key" % (tag, f.path), bool(lk & stv) and lk == stv,
+                       "%s looks one value up in the seen set and records another: %s vs %s" % (short, sorted(lk)[:3], sorted(stv)[:3]),
+                       f.where(looked[0].bb))
+            # (d)
+            for cc in f.calls():
+                if cc.name == V + "Value::as_str" and cc.args and cc.bb in body:
+                    folds = any(k.name.endswith(("::to_lowercase", "::to_uppercase", "::to_ascii_lowercase", "::to_ascii_uppercase"))
+                                or "unicase" in k.name for k in f.calls() if k.bb in body)
+                    if not folds:
+                        continue
+                    ctx.ob(rule + "key-is-folded-for-strings-only", "%s%s|as_str" % (tag, f.path), strview_is_guarded(f, cc),
+                           "%s folds the case of the string view of a value that may be bytes (`as_str()` is Some for bytes "
+                           "that are UTF-8) without `kind() == String`: bytes b'AB' and the string 'ab' share a key although "
+                           "they are not `==`, so a value that is no duplicate is dropped" % short, f.where(cc.bb))
+    return n
+
+
+
 SORTERS = ("::sort_by", "::sort_unstable_by", "::sort_by_key", "::sort_by_cached_key", "::max_by", "::min_by",
            "::binary_search_by", "::dedup_by", "::is_sorted_by", "safe_sort")
 
@@ -522,43 +636,7 @@ def check_comparators(ctx, prog, tag, rule="C07.V2.comparator-is-total"):
                             for cc in k.calls():
                                 if cc.name != V + "Value::as_str" or not cc.args:
                                     continue
-                                who = {o_.key() for o_ in flow.origins(k, cc.args[0])}
-                                guarded = False
-                                for (sb_, taken_) in flow.guards(k, cc.bb):
-                                    cd_ = flow.cond_of(k, sb_)
-                                    ee_ = flow.enum_eq(k, cd_)
-                                    side_ = flow.bool_true_labels(taken_)
-                                    if ee_ is None or side_ is None or ee_[0] != "String":
-                                        continue
-                                    truth_ = (side_ != cd_.neg) != cd_.call.name.endswith("::ne")
-                                    if truth_ and any(o_.kind == "call" and o_.call.name == KINDFN and (
-                                            {q_.key() for q_ in flow.origins(k, o_.call.args[0])} & who) for o_ in ee_[1]):
-                                        guarded = True
-                                if not guarded:
-                                    # the test may be folded into a boolean first (`let foldable = !cs && a.kind() == String && ..`):
-                                    # the call is unreachable once the true side of every such test on this value is taken away
-                                    ev_edges, ev_calls = set(), set()
-                                    for sb_ in sorted(k.reachable):
-                                        if k.term(sb_)["k"] != "switch":
-                                            continue
-                                        cd_ = flow.cond_of(k, sb_)
-                                        ee_ = flow.enum_eq(k, cd_) if cd_.kind == "call" else None
-                                        if ee_ is None or ee_[0] != "String":
-                                            continue
-                                        if any(o_.kind == "call" and o_.call.name == KINDFN and (
-                                                {q_.key() for q_ in flow.origins(k, o_.call.args[0])} & who) for o_ in ee_[1]):
-                                            ev_edges |= cfg.bool_edges(k, sb_, (not cd_.call.name.endswith("::ne")) != cd_.neg)
-                                    for c2_ in k.calls():
-                                        if c2_.name.endswith("PartialEq>::eq") and c2_.dest is not None:
-                                            ee2_ = flow.enum_eq(k, flow.Cond("call", c2_.bb, call=c2_))
-                                            if ee2_ is not None and ee2_[0] == "String" and any(
-                                                    o_.kind == "call" and o_.call.name == KINDFN and (
-                                                        {q_.key() for q_ in flow.origins(k, o_.call.args[0])} & who) for o_ in ee2_[1]):
-                                                ev_calls.add(c2_.bb)
-                                    if ev_edges or ev_calls:
-                                        reach_, _ = cfg.reach_with_bool_phis(k, ev_edges, evidence_calls=ev_calls)
-                                        guarded = cc.bb not in reach_
-                                if not guarded:
+                                if not strview_is_guarded(k, cc):
                                     badc.append("the string view of a value that may be bytes (as_str without kind() == String)")
                         # a verdict that is a constant on some inputs and a real comparison on others is not
                         # transitive (`_ => Ordering::Equal` for items whose key lookup failed: such an item is
@@ -814,6 +892,9 @@ def run(ctx):
 
         check_float_order_vs_equality(ctx, prog, tag)
         check_inline_padding(ctx, prog, tag)
+        n12 = check_dedup(ctx, prog, tag)
+        if prog.has_fn("minijinja::filters::builtins::unique"):
+            ctx.floor("C07.V12 de-duplicating loops" + tag, n12, 1)
         if cname == "MAX":
             ctx.sample({"kind table": {k: sorted(v) for k, v in T.kind.items()},
                         "coerce may-Some pairs": sorted("%s,%s" % k for k, v in T.coerce.items() if "Some" in v or "?" in v)[:60],
